@@ -1,12 +1,20 @@
 #!/bin/sh
-# usage: tools/seedverify.sh <patch.diff> <demo_file> <dest_dir_rel> <go test args...>
-# Confirms a seeded change: demo passes on the clean tree, fails with the patch. Scratch worktree removed afterwards.
+# usage: [SEEDNS=1] tools/seedverify.sh <patch.diff> <demo_file> <dest_dir_rel> <go test args...>
+# Confirms a seeded change: demo passes on the clean tree, fails with the patch. Scratch worktree removed
+# afterwards. SEEDNS=1 runs the demo in a private network namespace with lo and a veth pair.
 P=$(realpath "$1"); D=$(realpath "$2"); REL=$3; shift 3
 export GOFLAGS=-mod=mod GOPROXY=off GOSUMDB=off
 WT=$(mktemp -d /tmp/wt-seed-XXXXXX)
 git -C /repo worktree add -q --detach "$WT" HEAD || exit 2
 cp "$D" "$WT/$REL/zz_seed_$(basename "$D")"
-echo "== clean tree"; (cd "$WT/$REL" && go test -count=1 "$@" 2>&1 | tail -5); 
+run() {
+  if [ -n "$SEEDNS" ]; then
+    (cd "$WT/$REL" && unshare -n -- sh -c 'ip link set lo up; ip link add eth0 type veth peer name vpeer; ip addr add 10.77.0.1/24 brd + dev eth0; ip addr add 10.77.0.2/24 brd + dev vpeer; ip link set eth0 up; ip link set vpeer up; ip route add default via 10.77.0.2 dev eth0; sleep 3; go test -count=1 "$@" 2>&1' sh "$@" | tail -8)
+  else
+    (cd "$WT/$REL" && go test -count=1 "$@" 2>&1 | tail -8)
+  fi
+}
+echo "== clean tree"; run "$@"
 git -C "$WT" apply "$P" || { echo "patch does not apply"; git -C /repo worktree remove --force "$WT"; exit 2; }
-echo "== with patch"; (cd "$WT/$REL" && go test -count=1 "$@" 2>&1 | tail -8)
+echo "== with patch"; run "$@"
 git -C /repo worktree remove --force "$WT"
